@@ -1,7 +1,10 @@
 #!/bin/sh
-# usage: try_seed.sh <patch.diff> <property> [tier]  - run a check against /repo with a seeded change applied, then undo it
+# usage: try_seed.sh <patch.diff> <property> [tier]  - run a check against /repo with a seeded change applied, then undo it.
+# Evidence and reports of such a run go to a scratch directory (VERIF_OUT_DIR), never to /verif/evidence.
 P=$1; [ -f "$(dirname $1)/patch_current.diff" ] && P=$(dirname $1)/patch_current.diff; ID=$2; TIER=${3:-quick}
 git -C /repo apply "$P" || exit 3
-cd /verif && python3-vt verif.py check $ID --tier $TIER; RC=$?
+OUT=$(mktemp -d /tmp/tryseed.XXXXXX)
+cd /verif && VERIF_OUT_DIR=$OUT python3-vt verif.py check $ID --tier $TIER; RC=$?
 git -C /repo checkout -- . ; git -C /repo clean -fdq -e target
+rm -rf "$OUT"
 echo "exit=$RC"
